@@ -136,6 +136,14 @@ pub fn eval(cat: &Catalog, case: &Case, expected_text: Option<&str>, batch_text:
             let (out, meter) = real_decode(e, &case.input);
             let finding = match &out {
                 Outcome::Panic(m) => Some(Finding { class: "panic".into(), detail: m.clone() }),
+                // N zero-sized elements encode in O(log N) bytes, so no decoder can consume input
+                // per iteration for such targets; they are held to the step budget only where the
+                // format rejects the bytes (DESIGN 9.2)
+                Outcome::Hang
+                    if e.zero_sized_elems && !matches!(ref_decode(&cat.reg, &e.ty, &case.input), Err(w) if w != Why::ModelFuel) =>
+                {
+                    None
+                }
                 Outcome::Hang => Some(Finding {
                     class: "hang".into(),
                     detail: format!("more than {} steps for {} input bytes", tick_budget(case.input.len()), case.input.len()),
